@@ -22,6 +22,9 @@ import time
 import traceback
 
 
+_LASTCASE = os.environ.get("VERIF_LASTCASE")
+
+
 class Violation(Exception):
     """The property does not hold on this case."""
 
@@ -93,6 +96,9 @@ class Ctx:
         self._case_nt = False
         self._case_obs = None
         self.evaluations += 1
+        if _LASTCASE:
+            with open(_LASTCASE, "w") as f:
+                f.write(canon(case))
         try:
             sub.check(case, self)
         except Violation as v:
